@@ -225,9 +225,10 @@ def decIdSpecs : Nat → List String → Option (List (Nat × Dim) × List Strin
 
 def decCalls : Nat → List String → Option (List Call × List String)
   | 0, rest => some ([], rest)
-  | k + 1, al :: done :: avail :: rest => do
+  | k + 1, al :: done :: pc :: avail :: rest => do
     let al ← decAlign al
     let done ← decBool done
+    let pc ← decBool pc
     let avail ← decNat avail
     let (sp, rest) ← decSpec rest
     let pad ← specDim sp
@@ -236,7 +237,7 @@ def decCalls : Nat → List String → Option (List Call × List String)
       let (cs, rest) ← decIdSpecs (← decNat n) rest
       let (more, rest) ← decCalls k rest
       pure ({ ids := cs.map (·.1), al := al, pad := pad, dims := cs.map (·.2), avail := avail,
-              done := done } :: more, rest)
+              done := done, padCall := pc } :: more, rest)
     | [] => none
   | _, _ => none
 
